@@ -142,7 +142,7 @@ void World::begin(uint64_t sched_salt, RunResult *r, bool keep_log, bool echo) {
   };
   coap_startup();
   coap_set_log_handler(log_handler);
-  coap_set_log_level(COAP_LOG_EMERG);
+  coap_set_log_level(getenv("VERIF_LIBLOG") ? (coap_log_t)atoi(getenv("VERIF_LIBLOG")) : COAP_LOG_EMERG);   // debugging aid for replays (with VERIF_ECHO=1)
   coap_set_prng(world_prng);
 }
 
